@@ -467,46 +467,57 @@ func (vfs *MemFS) Mkdir(name string, perm fs.FileMode) error {
 func (vfs *MemFS) MkdirAll(path string, perm fs.FileMode) error {
 	const op = "mkdir"
 
-	parent, child, pi, err := vfs.searchNode(path, slmEval)
-	switch child.(type) {
-	case *dirNode:
-		if err != vfs.err.FileExists {
+	for {
+		parent, child, pi, err := vfs.searchNode(path, slmEval)
+		switch child.(type) {
+		case *dirNode:
+			if err != vfs.err.FileExists {
+				return &fs.PathError{Op: op, Path: path, Err: err}
+			}
+
+			return nil
+		case *fileNode:
+			return &fs.PathError{Op: op, Path: pi.LeftPart(), Err: vfs.err.NotADirectory}
+		}
+
+		if parent == nil || !vfs.isNotExist(err) {
+			// the volume does not exist, or the walk was stopped by something else than a missing directory.
 			return &fs.PathError{Op: op, Path: path, Err: err}
 		}
 
-		return nil
-	case *fileNode:
-		return &fs.PathError{Op: op, Path: pi.LeftPart(), Err: vfs.err.NotADirectory}
-	}
+		parent.mu.Lock()
 
-	if parent == nil || !vfs.isNotExist(err) {
-		// the volume does not exist, or the walk was stopped by something else than a missing directory.
-		return &fs.PathError{Op: op, Path: path, Err: err}
-	}
+		if !parent.checkPermission(avfs.OpenWrite|avfs.OpenLookup, vfs.User()) {
+			parent.mu.Unlock()
 
-	parent.mu.Lock()
-	defer parent.mu.Unlock()
-
-	if !parent.checkPermission(avfs.OpenWrite|avfs.OpenLookup, vfs.User()) {
-		return &fs.PathError{Op: op, Path: path, Err: vfs.err.PermDenied}
-	}
-
-	dn := parent
-
-	for {
-		part := pi.Part()
-		if dn.children[part] != nil {
-			break
+			return &fs.PathError{Op: op, Path: path, Err: vfs.err.PermDenied}
 		}
 
-		dn = vfs.createDir(dn, part, perm)
+		dn := parent
+		created := true
 
-		if !pi.Next() {
-			break
+		for {
+			part := pi.Part()
+			if dn.children[part] != nil {
+				// the name was created by another call after the path was resolved : the path is resolved again.
+				created = false
+
+				break
+			}
+
+			dn = vfs.createDir(dn, part, perm)
+
+			if !pi.Next() {
+				break
+			}
+		}
+
+		parent.mu.Unlock()
+
+		if created {
+			return nil
 		}
 	}
-
-	return nil
 }
 
 // MkdirTemp creates a new temporary directory in the directory dir
